@@ -359,6 +359,7 @@ Definition pm_ok (e : bytes * (N * (N * (list (N * N) * (list (N * N) * list (N 
     forallb (fun vp => match lookup (if fst vp =? custom then from_kid else from_p) (snd vp) with
                        | Some v => v =? fst vp | None => false end) to_p
     && stable_ok to_p from_p && stable_ok to_p from_kid
+    && forallb (fun pv => negb (snd pv =? custom)) from_p
   else if kind =? 1 then true
   else (kind =? 0) && fwd_ok to_p from_p && stable_ok to_p from_p.
 Lemma prefix_maps_ok : forallb pm_ok prefix_maps = true.
@@ -459,7 +460,7 @@ Proof.
     + destruct (lookup_bytes jwt_kid_paths url) as [path|]; [|discriminate].
       intros HT. inversion HT; subst T. unfold variant_ok. cbn [kt_prefix kt_schema].
       intros Hk. split; [exact Hk|].
-      intros p Hl. rewrite !andb_true_iff in H. destruct H as [[H _] _].
+      intros p Hl. rewrite !andb_true_iff in H. destruct H as [[[H _] _] _].
       rewrite forallb_forall in H. specialize (H _ (lookup_in _ _ _ Hl)). cbn [fst snd] in H.
       destruct (lookup (if gk_variant k =? custom then from_kid else from_p) p); [|discriminate].
       apply N.eqb_eq in H. congruence.
